@@ -339,9 +339,14 @@ func (w *c2World) writeInst(in *c2Inst, u string, g int, kind string) {
 		}
 	case "neuronjson":
 		if kind == "put" {
+			// schema documents are versioned metadata of the instance as well
+			post("json_schema", []byte(fmt.Sprintf(`{"type":"object","title":"g%d"}`, g)))
+			post("schema", []byte(fmt.Sprintf(`{"kind":"schema","gen":%d}`, g)))
+			post("schema_batch", []byte(fmt.Sprintf(`{"kind":"batch","gen":%d}`, g)))
 			post("key/1000?u=alice", []byte(fmt.Sprintf(`{"bodyid":1000,"a":%d,"b":"x"}`, g)))
 			post(fmt.Sprintf("key/%d?u=bob", 1001+g%3), []byte(fmt.Sprintf(`{"bodyid":%d,"c":"g%d"}`, 1001+g%3, g)))
 		} else {
+			del("schema_batch")
 			post("key/1000?u=carol", []byte(`{"bodyid":1000,"b":null}`))
 			del(fmt.Sprintf("key/%d", 1001+g%3))
 		}
@@ -448,6 +453,9 @@ func (w *c2World) reads(in *c2Inst, u string) []snap.Read {
 			get("key/"+k+"?show=all", snap.NormJSON)
 		}
 		get("keyrangevalues/0/9999?json=true", snap.NormJSON)
+		get("json_schema", snap.NormJSON)
+		get("schema", snap.NormJSON)
+		get("schema_batch", snap.NormJSON)
 	case "annotation":
 		get("all-elements", snap.NormJSON)
 		get("elements/200_200_200/-50_-50_-50", snap.NormJSONSortedArray)
